@@ -244,7 +244,12 @@ pub fn catch<T>(f: impl FnOnce() -> T) -> Result<T, (String, String)> {
                 Some(p) => (p.msg, p.loc, p.frame),
                 None => ("panic (no hook info)".into(), String::new(), String::new()),
             };
-            let loc_file = loc.rsplitn(2, ':').last().unwrap_or("").trim_start_matches("/repo/").to_string();
+            let mut loc_file = loc.rsplitn(2, ':').last().unwrap_or("").trim_start_matches("/repo/").to_string();
+            if let Some(i) = loc_file.find("/registry/src/") {
+                // dependency source: keep "<crate-version>/src/file.rs"
+                let rest = &loc_file[i + "/registry/src/".len()..];
+                loc_file = rest.splitn(2, '/').nth(1).unwrap_or(rest).to_string();
+            }
             let site = if !frame.is_empty() {
                 frame
             } else {
@@ -279,7 +284,28 @@ pub fn child_main(args: &Args) {
     let mut max_alloc_seen = 0usize;
     let mut max_cpu_seen = 0u64;
     let mut ran = 0u64;
+    let skip_path = args.get("skip").map(|s| s.to_string());
+    let mut skip: std::collections::HashSet<String> = Default::default();
     for idx in from..to {
+        if let Some(p) = &skip_path {
+            if (idx - from) % 32 == 0 {
+                if let Ok(t) = std::fs::read_to_string(p) {
+                    skip = t.lines().map(|l| l.to_string()).collect();
+                }
+            }
+            if !skip.is_empty() {
+                let d = crate::props::iso_describe(&inner, idx);
+                if skip.contains(&format!("{}\t{}", d.decoder, d.mutation)) {
+                    *classes.entry("skipped-after-repeated-hang".into()).or_insert(0) += 1;
+                    ran += 1;
+                    continue;
+                }
+            }
+        }
+        if (idx - from) % 2000 == 1999 {
+            // partial summary: a later death of this child loses at most 2000 cases of statistics
+            flush_child(&keys_path, &mut keys, from, to, &mut ran, &mut classes, &mut counters, &mut samples, max_alloc_seen, max_cpu_seen);
+        }
         if let Some(f) = &progress {
             let _ = f.write_at(&idx.to_le_bytes(), 0);
         }
@@ -321,8 +347,8 @@ pub fn child_main(args: &Args) {
                     max_alloc_seen = max_alloc_seen.max(max_req);
                     max_cpu_seen = max_cpu_seen.max(cpu);
                     let n = out.input_len;
-                    let alloc_lim = (1usize << 20).max(64 * n);
-                    let peak_lim = (4usize << 20).max(256 * n);
+                    let alloc_lim = (4usize << 20).max(64 * n);
+                    let peak_lim = (16usize << 20).max(256 * n);
                     let cpu_lim = 500_000_000u64.max(20_000 * n as u64);
                     let mut res_viol = |what: &str, detail: String| {
                         let d = crate::props::iso_describe(&inner, idx);
@@ -342,17 +368,42 @@ pub fn child_main(args: &Args) {
             }
         }
     }
+    flush_child(&keys_path, &mut keys, from, to, &mut ran, &mut classes, &mut counters, &mut samples, max_alloc_seen, max_cpu_seen);
+    let mut o = stdout.lock();
+    let _ = writeln!(o, "D");
+    let _ = o.flush();
+}
+
+#[allow(clippy::too_many_arguments)]
+fn flush_child(
+    keys_path: &Option<String>,
+    keys: &mut Vec<u64>,
+    from: u64,
+    to: u64,
+    ran: &mut u64,
+    classes: &mut std::collections::BTreeMap<String, u64>,
+    counters: &mut std::collections::BTreeMap<String, u64>,
+    samples: &mut Vec<Value>,
+    max_alloc_seen: usize,
+    max_cpu_seen: u64,
+) {
     if let (Some(p), false) = (keys_path, keys.is_empty()) {
         let mut bytes = Vec::with_capacity(keys.len() * 8);
-        for k in &keys {
+        for k in keys.iter() {
             bytes.extend_from_slice(&k.to_le_bytes());
         }
         if let Ok(mut f) = std::fs::OpenOptions::new().create(true).append(true).open(p) {
             let _ = f.write_all(&bytes);
         }
+        keys.clear();
     }
-    let summary = json!({"from": from, "to": to, "ran": ran, "classes": classes, "counters": counters,
+    let summary = json!({"from": from, "to": to, "ran": *ran, "classes": classes, "counters": counters,
         "samples": samples, "max_alloc_request": max_alloc_seen, "max_cpu_ns": max_cpu_seen});
+    *ran = 0;
+    classes.clear();
+    counters.clear();
+    samples.clear();
+    let stdout = std::io::stdout();
     let mut o = stdout.lock();
     let _ = writeln!(o, "S {summary}");
     let _ = o.flush();
@@ -375,6 +426,10 @@ pub struct IsoCfg {
     pub extra: Vec<(String, String)>,
     /// alternative binary (e.g. the release-profile build)
     pub exe: Option<String>,
+    /// after this many kills for the same (decoder, mutation) the remaining cases of exactly that
+    /// class are skipped (counted as "skipped-after-repeated-hang"), so a known CPU-exhaustion
+    /// input does not cost its kill budget thousands of times
+    pub skip_after_hangs: Option<u32>,
 }
 
 #[derive(Debug, Clone)]
@@ -398,6 +453,11 @@ pub struct IsoResult {
     pub restarts: u64,
     pub max_alloc_request: u64,
     pub max_cpu_ns: u64,
+    pub hang_counts: std::collections::HashMap<String, u32>,
+}
+
+fn skip_file_path(cfg: &IsoCfg) -> String {
+    format!("{}/{}-{}.skip", work_dir(), cfg.prop, std::process::id())
 }
 
 fn proc_cpu_seconds(pid: u32) -> Option<f64> {
@@ -436,6 +496,9 @@ fn run_segment(cfg: &IsoCfg, seg: Segment, slot: usize, res: &Mutex<IsoResult>) 
             .args(["--prop", &cfg.prop, "--tier", &cfg.tier, "--seed", &cfg.seed.to_string()])
             .args(["--from", &from.to_string(), "--to", &seg.to.to_string()])
             .args(["--progress", &progress, "--keys", &keys]);
+        if cfg.skip_after_hangs.is_some() {
+            cmd.args(["--skip", &skip_file_path(cfg)]);
+        }
         for (k, v) in &cfg.extra {
             cmd.arg(format!("--{k}")).arg(v);
         }
@@ -497,8 +560,13 @@ fn run_segment(cfg: &IsoCfg, seg: Segment, slot: usize, res: &Mutex<IsoResult>) 
             s
         });
         let mut got_summary = false;
+        let mut summarised = 0u64;
         for line in BufReader::new(stdout).lines() {
             let Ok(line) = line else { break };
+            if line == "D" {
+                got_summary = true;
+                continue;
+            }
             if let Some(j) = line.strip_prefix("E ") {
                 if let Ok(v) = serde_json::from_str::<Value>(j) {
                     res.lock().unwrap().events.push(IsoEvent {
@@ -511,7 +579,7 @@ fn run_segment(cfg: &IsoCfg, seg: Segment, slot: usize, res: &Mutex<IsoResult>) 
                 }
             } else if let Some(j) = line.strip_prefix("S ") {
                 if let Ok(v) = serde_json::from_str::<Value>(j) {
-                    got_summary = true;
+                    summarised += v["ran"].as_u64().unwrap_or(0);
                     let mut r = res.lock().unwrap();
                     r.ran += v["ran"].as_u64().unwrap_or(0);
                     if let Some(m) = v["classes"].as_object() {
@@ -561,8 +629,8 @@ fn run_segment(cfg: &IsoCfg, seg: Segment, slot: usize, res: &Mutex<IsoResult>) 
             ));
             return;
         }
-        // cases before idx in this child ran without summary; count them
-        r.ran += idx - from + 1;
+        // cases of this child that ran after its last partial summary
+        r.ran += (idx - from + 1).saturating_sub(summarised);
         let mut inner = Args {
             prop: cfg.prop.clone(),
             tier: cfg.tier.clone(),
@@ -577,13 +645,25 @@ fn run_segment(cfg: &IsoCfg, seg: Segment, slot: usize, res: &Mutex<IsoResult>) 
         let case = json!({"index": idx, "decoder": d.decoder, "mutation": d.mutation, "case": d.case});
         let k = killed.lock().unwrap().clone();
         match k {
-            Some((why, secs)) if why == "cpu" => r.events.push(IsoEvent {
+            Some((why, secs)) if why == "cpu" => {
+                if let Some(n) = cfg.skip_after_hangs {
+                    let key = format!("{}\t{}", d.decoder, d.mutation);
+                    let c = r.hang_counts.entry(key.clone()).or_insert(0);
+                    *c += 1;
+                    if *c == n {
+                        use std::io::Write as _;
+                        if let Ok(mut f) = std::fs::OpenOptions::new().create(true).append(true).open(skip_file_path(cfg)) {
+                            let _ = writeln!(f, "{key}");
+                        }
+                    }
+                }
+                r.events.push(IsoEvent {
                 index: idx,
                 kind: "hang".into(),
-                signature: format!("cpu-exhaustion (killed) decoder={} mutation={}", d.decoder, d.mutation),
+                signature: format!("cpu decoder={} mutation={}", d.decoder, d.mutation),
                 detail: format!("case consumed {secs:.1} s of process CPU without returning; worker killed"),
                 case,
-            }),
+            })},
             Some((_, secs)) => r.inconclusive.push(format!(
                 "case {idx} ({}) made no progress for {secs:.0} s of wall time without using CPU; killed (inconclusive)",
                 d.decoder
@@ -626,6 +706,7 @@ fn unsafe_kill(pid: u32) {
 }
 
 pub fn run_isolated(cfg: &IsoCfg) -> IsoResult {
+    let _ = std::fs::remove_file(skip_file_path(cfg));
     let res = Mutex::new(IsoResult::default());
     let n = cfg.workers.max(1) as u64;
     // many small segments so that workers stay busy: 4 segments per worker
@@ -649,5 +730,6 @@ pub fn run_isolated(cfg: &IsoCfg) -> IsoResult {
             });
         }
     });
+    let _ = std::fs::remove_file(skip_file_path(cfg));
     res.into_inner().unwrap()
 }
